@@ -678,17 +678,34 @@ package fpgo
 // SplitEvery and GroupBy: safety (no panic, inputs untouched) and the guarded corner only; the grouping itself is not specified here.
 //@ func SplitEvery
 //@   prop C03
+//@   ghost starts (Array Int Int)
+//@   ghostinit starts = store(starts, 0, 0)
 //@   ensures corner: size <= 0 || len(list) <= 1 ==> len(r0) == 1 && r0[0] == list
+//@   ensures groups: size > 0 && len(list) > 1 ==> len(r0) >= 1 && starts[0] == 0 && starts[len(r0)] == len(list) && forall(k, 0, len(r0), starts[k+1] == starts[k] + len(r0[k]))
+//@   ensures full-groups-then-rest: size > 0 && len(list) > 1 ==> forall(k, 0, len(r0)-1, len(r0[k]) == size) && 1 <= len(r0[len(r0)-1]) && len(r0[len(r0)-1]) <= size
+//@   ensures in-order: size > 0 && len(list) > 1 ==> forall(k, 0, len(r0), forall(j, 0, len(r0[k]), r0[k][j] == list[starts[k]+j]))
 //@   ensures unchanged: unchanged(list)
 //@ func SplitEvery loop 0
-//@   invariant fresh: fresh(result) && fresh(currentGroup)
+//@   ghostset starts = ite(_i+1 >= len(list), store(store(starts, len(result)-1, _i+1-len(currentGroup)), len(result), len(list)), store(starts, len(result), _i+1-len(currentGroup)))
+//@   invariant fresh: fresh(result) && fresh(currentGroup) && size > 0 && len(list) > 1 && starts[0] == 0
+//@   invariant running: _i < len(list) ==> starts[len(result)] + len(currentGroup) == _i && len(currentGroup) <= size && (_i > 0 ==> 1 <= len(currentGroup)) && forall(k, 0, len(result), starts[k+1] == starts[k] + size && len(result[k]) == size) && forall(k, 0, len(result), forall(j, 0, size, result[k][j] == list[starts[k]+j])) && forall(j, 0, len(currentGroup), currentGroup[j] == list[starts[len(result)]+j]) && forall(k, 0, len(result), base(result[k]) != base(currentGroup))
+//@   invariant finished: _i == len(list) ==> len(result) >= 1 && starts[len(result)] == len(list) && forall(k, 0, len(result), starts[k+1] == starts[k] + len(result[k])) && forall(k, 0, len(result)-1, len(result[k]) == size) && 1 <= len(result[len(result)-1]) && len(result[len(result)-1]) <= size && forall(k, 0, len(result), forall(j, 0, len(result[k]), result[k][j] == list[starts[k]+j]))
 
 //@ func GroupBy
 //@   prop C03
+//@   ghost pos (Array Int Int)
 //@   ensures fresh: fresh(r0)
+//@   ensures keys: forallv(y, has(r0, y) == exists(i, 0, len(list), grouper(list[i]) == y))
+//@   ensures groups-hold-their-own: forallv(y, has(r0, y) ==> forall(j, 0, len(r0[y]), grouper(r0[y][j]) == y && exists(i, 0, len(list), list[i] == r0[y][j])))
+//@   ensures every-item-grouped: forall(i, 0, len(list), 0 <= pos[i] && pos[i] < len(r0[grouper(list[i])]) && r0[grouper(list[i])][pos[i]] == list[i])
 //@   ensures unchanged: unchanged(list)
 //@ func GroupBy loop 0
-//@   invariant fresh: fresh(result) && forallv(x, freshOrNil(result[x]))
+//@   invariant fresh: fresh(result) && forallv(x, has(result, x) ==> fresh(result[x]))
+//@   invariant separate: forallv(x, forallv(y, has(result, x) && has(result, y) && x != y ==> base(result[x]) != base(result[y])))
+//@   invariant keys: forallv(y, has(result, y) == exists(i, 0, _i, grouper(list[i]) == y))
+//@   invariant groups-hold-their-own: forallv(y, has(result, y) ==> forall(j, 0, len(result[y]), grouper(result[y][j]) == y && exists(i, 0, _i, list[i] == result[y][j])))
+//@   ghostset pos = store(pos, _i, len(result[id])-1)
+//@   invariant every-item-grouped: forall(i, 0, _i, 0 <= pos[i] && pos[i] < len(result[grouper(list[i])]) && result[grouper(list[i])][pos[i]] == list[i])
 
 // ===================================================================================================
 // C06 - LinkedListQueue is a deque for every history: representation invariant + abstract transitions
